@@ -467,7 +467,7 @@ def end_to_end_cases(ctx, inst, per_op):
 
 
 CASE_TIMEOUT = 150
-MEM_TARGETS = ['Proofs/C22_mem.vo', 'Proofs/C22_mem_fixed.vo']      # proofs about the memory model Model/WasmMem.v
+MEM_TARGETS = ['Proofs/C22_mem.vo', 'Proofs/C22_mem_fixed.vo', 'Proofs/C22_grow_fixed.vo']      # proofs about the memory model Model/WasmMem.v
 
 KNOWN_OVERFLOW = [('i32.div_s', [-2 ** 31, -1], ['i32', 'i32'], 'i32'), ('i64.div_s', [-2 ** 63, -1], ['i64', 'i64'], 'i64')]
 
